@@ -425,7 +425,7 @@ static Plan minimise(Engine& e, const Config& cfg, Plan plan, Tester& t, uint64_
     // 3. knobs towards 0
     for (size_t k = 0; k < plan.knobs.size() && !over(); k++)
     {
-        if (plan.knobs[k].second <= 0 || plan.knobs[k].first == "min")
+        if (plan.knobs[k].second <= 0 || plan.knobs[k].first == "min" || plan.knobs[k].first == "atomics")
             continue;
         Plan cand = plan;
         cand.knobs[k].second = 0;
